@@ -441,6 +441,10 @@ def calibrate_thermal(counts, prt, ict, space, line_numbers, channel, cal):
 
     lines, columns = counts.shape[:2]
 
+    # The readers pass the 16 bit scan line number field of the file. Use plain integers, so that
+    # the position in the PRT cycle does not wrap for long passes.
+    line_numbers = np.asarray(line_numbers).astype(np.int64)
+
     # Step 1. The temperature of the internal blackbody target is measured by four platinum resistance
     # thermometers (PRT)s. In each scanline, data words 18, 19 and 20 in the HRPT minor frame format contain
     # three readings from one of the four PRTs. (See Section 4.1.3) A different PRT is sampled each scanline;
